@@ -108,7 +108,22 @@ fn tracker_histories<T: TElt>(params: &Value, ws: bool) -> Outcome {
     let (mu, sigma, shift, hold) = (pf(params, "mu"), pf(params, "sigma"), pf(params, "shift"), pus(params, "hold"));
     let seed = pu(params, "gseed");
     // the values actually fed (after conversion to T and to f32, which is what the trackers see)
-    let val = |c: usize, k: usize, j: usize| -> f64 { T::of(state_val(seed, c, k, j, mu, sigma, shift, hold)).to_f32().unwrap() as f64 };
+    // signed zeros: the last parameter alternates between +0.0 and -0.0 while the others repeat: numerically
+    // the same state ("differs" is a statement about values), so no move is to be counted
+    let zero_flip = params.get("zero_flip").and_then(|v| v.as_bool()).unwrap_or(false);
+    let hold = if zero_flip { hold.max(3) } else { hold };
+    let sv = move |c: usize, k: usize, j: usize| -> f64 {
+        if zero_flip && j == p - 1 {
+            if k % 2 == 0 {
+                -0.0
+            } else {
+                0.0
+            }
+        } else {
+            state_val(seed, c, k, j, mu, sigma, shift, hold)
+        }
+    };
+    let val = |c: usize, k: usize, j: usize| -> f64 { T::of(sv(c, k, j)).to_f32().unwrap() as f64 };
     let judged = true;
     let mut trackers: Vec<ChainTracker> = vec![];
     let mut multi = MultiChainTracker::new(nc, p);
@@ -132,7 +147,7 @@ fn tracker_histories<T: TElt>(params: &Value, ws: bool) -> Outcome {
             // used here: whether that is right is not part of the property; a state that is too SHORT cannot
             // be absorbed and is refused)
             for c in 0..nc {
-                let short: Vec<T> = (0..p - 1).map(|j| T::of(state_val(seed, c, k, j, mu, sigma, shift, hold))).collect();
+                let short: Vec<T> = (0..p - 1).map(|j| T::of(sv(c, k, j))).collect();
                 if trackers[c].step(&short).is_ok() {
                     o.violate("short_state_accepted", "ChainTracker::step:short-state-accepted", format!("a state of length {} was accepted by a tracker of {p} parameters", short.len()));
                     return o;
@@ -147,7 +162,7 @@ fn tracker_histories<T: TElt>(params: &Value, ws: bool) -> Outcome {
         }
         let mut flat: Vec<T> = vec![];
         for c in 0..nc {
-            let x: Vec<T> = (0..p).map(|j| T::of(state_val(seed, c, k, j, mu, sigma, shift, hold))).collect();
+            let x: Vec<T> = (0..p).map(|j| T::of(sv(c, k, j))).collect();
             let xf: Vec<f64> = (0..p).map(|j| val(c, k, j)).collect();
             if let Err(e) = trackers[c].step(&x) {
                 o.violate("tracker_err", "ChainTracker::step:Err", e.to_string());
@@ -321,7 +336,7 @@ impl Scenario for TrackerHistories {
         let sigma = g.log_uniform(1e-6, 1e3); // any scale: f32 conditioning depends on mean/sd, not on the scale
         json!({"elt": *g.pick(&["f64", "f32", "f32", "i32", "i32", "i16", "u8"]), "chains": crate::core::size(g, 2, 16, 70), "params": crate::core::size(g, 1, 8, 70), "n": n,
                "mu": fbits(sigma * g.f64_in(-10.0, 10.0)), "sigma": fbits(sigma), "shift": fbits(if g.bool(1, 2) { 0.0 } else { g.f64_in(0.1, 3.0) }),
-               "hold": if g.bool(1, 3) { g.usize(2, 5) } else { 1 }, "gseed": g.u64(), "refused_updates": g.bool(1, 4)})
+               "hold": if g.bool(1, 3) { g.usize(2, 5) } else { 1 }, "gseed": g.u64(), "refused_updates": g.bool(1, 4), "zero_flip": g.bool(1, 6)})
     }
     fn execute(&self, p: &Value, ws: bool) -> Outcome {
         // a panic inside a tracker (e.g. arithmetic overflow on an integer element type) is an observation
